@@ -202,6 +202,25 @@ def family(tier, seed):
 
 # ------------------------------------------------------------------ the real DSL side
 
+def shared_family():
+    """expressions in which a compound sub-expression OBJECT occurs more than once (bound to a name and reused), in one
+    equation or across two equations: [(tree, first or None)]"""
+    A, B_, C = ("el", "a"), ("el", "b"), ("el", "c")
+    subs = [("bin", "mul", ("num", 3.0), A), ("bin", "mul", A, ("num", 2.0)), ("fn", "neg", A), ("bin", "add", A, B_),
+            ("bin", "sub", A, B_), ("bin", "mul", A, B_), ("bin", "div", A, B_), ("bin", "pow", A, ("num", 2.0)), ("fn", "abs", A),
+            ("bin", "mul", ("num", -1.0), A), ("fn", "neg", ("bin", "mul", ("num", 2.0), A))]
+    out = []
+    for e in subs:
+        ne = ("fn", "neg", e)
+        out.append((("bin", "add", ("bin", "add", e, ne), C), None))                      # e + (-e) + c
+        out.append((("bin", "sub", ("bin", "mul", ne, C), e), None))                      # (-e)*c - e
+        out.append((("bin", "add", ("bin", "mul", e, ("num", 2.0)), ("bin", "div", e, C)), None))
+        out.append((("bin", "mul", ("bin", "sub", C, e), ("bin", "add", e, C)), None))
+        out.append((("bin", "add", e, C), ne))                                            # y = -e defined first, then x = e + c
+        out.append((("bin", "sub", ("fn", "abs", e), e), ("bin", "mul", ne, ("num", 3.0))))
+    return out
+
+
 def new_model():
     from BPTK_Py import Model
     m = Model(starttime=0.0, stoptime=5.0, dt=1.0, name="c02")
@@ -221,18 +240,29 @@ def leaf_names():
     return names
 
 
-def build_dsl(tree, els, vecs):
-    """uses the REAL operator overloads and sd_functions"""
+def build_dsl(tree, els, vecs, cache=None):
+    """uses the REAL operator overloads and sd_functions.  With a cache, equal subtrees are built ONCE and the same
+    Python object is used at every occurrence (a user who binds a sub-expression to a name and reuses it)."""
+    if cache is not None and tree[0] not in ("el", "num"):
+        if tree not in cache:
+            cache[tree] = _build_dsl(tree, els, vecs, cache)
+        return cache[tree]
+    return _build_dsl(tree, els, vecs, cache)
+
+
+def _build_dsl(tree, els, vecs, cache=None):
     from BPTK_Py import sd_functions as sd
+    _b = build_dsl
+    build_dsl_ = lambda t, e, v: _b(t, e, v, cache)
     k = tree[0]
     if k == "el":
         return els[tree[1]]
     if k == "num":
         return tree[1]
     if k == "bin":
-        return PYOP[tree[1]](build_dsl(tree[2], els, vecs), build_dsl(tree[3], els, vecs))
+        return PYOP[tree[1]](build_dsl_(tree[2], els, vecs), build_dsl_(tree[3], els, vecs))
     if k == "fn":
-        args = [build_dsl(x, els, vecs) for x in tree[2:]]
+        args = [build_dsl_(x, els, vecs) for x in tree[2:]]
         f = tree[1]
         if f == "neg":
             return -args[0]
@@ -245,13 +275,13 @@ def build_dsl(tree, els, vecs):
             return ve.arr_rank(2)
         return getattr(ve, tree[1])()
     if k == "If":
-        return sd.If(*[build_dsl(x, els, vecs) for x in tree[1:]])
+        return sd.If(*[build_dsl_(x, els, vecs) for x in tree[1:]])
     if k == "And":
-        return sd.And(*[build_dsl(x, els, vecs) for x in tree[1:]])
+        return sd.And(*[build_dsl_(x, els, vecs) for x in tree[1:]])
     if k == "Or":
-        return sd.Or(*[build_dsl(x, els, vecs) for x in tree[1:]])
+        return sd.Or(*[build_dsl_(x, els, vecs) for x in tree[1:]])
     if k == "Not":
-        return sd.Not(build_dsl(tree[1], els, vecs))
+        return sd.Not(build_dsl_(tree[1], els, vecs))
     raise ValueError(k)
 
 
@@ -477,11 +507,15 @@ class PathDom(object):
         return not x
 
 
-def check_tree(tree, timeout_s, mutate=None):
-    """returns (status, info): 'rejected' | 'holds' | 'violated' (info = model) | 'unknown'"""
+def check_tree(tree, timeout_s, mutate=None, share=False, first=None):
+    """returns (status, info): 'rejected' | 'holds' | 'violated' (info = model) | 'unknown'.
+    share: equal subtrees are one Python object; first: another equation built (from the same objects) before this one"""
     m, els, vecs = new_model()
     try:
-        dsl = build_dsl(tree, els, vecs)
+        cache = {} if share else None
+        if first is not None:
+            m.converter("y_first").equation = build_dsl(first, els, vecs, cache)
+        dsl = build_dsl(tree, els, vecs, cache)
         x = m.converter("x")
         x.equation = dsl
     except S.SymbolicEscape as e:
@@ -560,15 +594,18 @@ def _tree_from_json(t):
     return t
 
 
-def run_concrete(tree, env):
+def run_concrete(tree, env, share=False, first=None):
     """(impl outcome, ref outcome) on the unmodified code with plain floats"""
     m, els, vecs = new_model()
     for n in leaf_names():
         val = float(env.get(n, 1.0))
         m.equations[n] = (lambda vv: (lambda t: vv))(val)
     try:
+        cache = {} if share else None
+        if first is not None:
+            m.converter("y_first").equation = build_dsl(first, els, vecs, cache)
         x = m.converter("x")
-        x.equation = build_dsl(tree, els, vecs)
+        x.equation = build_dsl(tree, els, vecs, cache)
         impl = x(1.0)
     except Exception as e:
         impl = e
@@ -623,16 +660,18 @@ def replay(case):
     model first, then fixed alternatives, then a small grid (needed when the difference sits behind an
     uninterpreted % / ** / round whose model interpretation is not Python's)"""
     tree = _tree_from_json(case["tree"])
+    share, first = case.get("share", False), (_tree_from_json(case["first"]) if case.get("first") else None)
     envs = [case["env"]] + ALT_ENVS
     names = tree_leaves(tree)
     if len(names) <= 5:
         envs = envs + [dict(zip(names, vals)) for vals in itertools.product(GRID, repeat=len(names))]
     for env in envs:
-        impl, ref = run_concrete(tree, env)
+        impl, ref = run_concrete(tree, env, share, first)
         if isinstance(impl, complex) or isinstance(ref, complex):
             continue
         if differs(impl, ref):
-            return True, "tree %s env %s: DSL value %r, python value %r" % (show(tree), env, impl, ref)
+            return True, "tree %s%s env %s: DSL value %r, python value %r" % (
+                show(tree), " (sub-expressions shared%s)" % (", after %s was defined" % show(first) if first else "") if share else "", env, impl, ref)
     return False, "tree %s: DSL and python agree on %d assignments" % (show(tree), len(envs))
 
 
@@ -691,6 +730,14 @@ def run(tier):
     samples = []
     violated = []
     try:
+        shared_bad = []
+        for tree, first in shared_family():
+            st, info = check_tree(tree, timeout, share=True, first=first)
+            counts[st] += 1
+            if st == "violated":
+                shared_bad.append((tree, first, info))
+            elif st == "unknown":
+                rep.inconcl("shared tree %s: %s" % (show(tree), info))
         for tree in trees:
             st, info = check_tree(tree, timeout)
             counts[st] += 1
@@ -715,13 +762,19 @@ def run(tier):
         sig, _ = signature(tree, explained)
         env = {k: float(v) for k, v in info.items() if isinstance(v, (Fraction, int, float)) and not isinstance(v, bool)}
         rep.candidate(sig, {"tree": tree, "env": env}, "DSL value of %s differs from the python expression" % show(tree))
+    for tree, first, info in shared_bad:
+        env = {k: float(v) for k, v in info.items() if isinstance(v, (Fraction, int, float)) and not isinstance(v, bool)}
+        rep.candidate("shared:%s" % head(tree[2] if tree[0] == "bin" and tree[2][0] != "el" else tree), {"tree": tree, "env": env, "share": True, "first": first},
+                      "DSL value of %s with shared sub-expression objects%s differs from the python expression" % (
+                          show(tree), " (after %s was defined from the same objects)" % show(first) if first else ""))
     rep.assume("operand values are reals (binary64 rounding of values is outside the claim)",
+               "%d expressions in which a compound sub-expression object is used more than once, in one equation or across two" % len(shared_family()),
                "** with non-small exponent, %, exp, round are uninterpreted functions (congruence only); sqrt(x) is pow(x, 1/2) on both sides",
                "max/min/sorted/np.mean/median/std in the generated-code namespace are ITE-merging stubs with Python semantics",
                "numeric literals are the concrete values %s" % NUMS,
                "depth bound: exhaustive depth<=2 (one or two compound operands); thorough adds depth-3 spines and seeded deeper shapes")
     rep.coverage.update({
-        "programs": len(trees), "disagreements_checked": len(violated), "samples": samples,
+        "programs": len(trees) + len(shared_family()), "disagreements_checked": len(violated) + len(shared_bad), "samples": samples,
         "verdicts": counts, "exhaustive": True,
         "bounds": "expression trees depth<=2 over %d binary ops, %d unary fns, %d aggregates, If/And/Or/Not%s" % (
             len(ARITH + CMPS), len(FN1), len(AGGS), "; depth-3 spines + 1500 seeded shapes" if tier == "thorough" else ""),
